@@ -217,9 +217,12 @@ def pyRepr (s : String) : String :=
   let q : Char := if l.contains '\'' && !l.contains '"' then '"' else '\''
   String.ofList (q :: (l.flatMap (reprChar q)) ++ [q])
 
+/-- `ast.unparse` of a float constant: its `repr`, except that infinity is written `1e309` (the sign is a `UnaryOp` by then) -/
+def floatText (r : String) : String := if r == "inf" then "1e309" else if r == "-inf" then "-1e309" else r
+
 def Default.text : Default → String
   | .int i => toString i
-  | .float r => r
+  | .float r => floatText r
   | .complex r => r
   | .bool b => if b then "True" else "False"
   | .str s => pyRepr s
